@@ -17,6 +17,7 @@ import (
 	"math/big"
 	"sort"
 	"strings"
+	"unicode/utf8"
 
 	sdk "github.com/cosmos/cosmos-sdk/types"
 	"github.com/ethereum/go-ethereum/accounts/abi"
@@ -93,6 +94,10 @@ func genSymbol(r *Rng, t symTable) string {
 			return p[r.Intn(2)]
 		}
 		return "Face"
+	case 4, 5:
+		// whitespace-padded and otherwise odd texts an ERC20 contract may report
+		return []string{"ETH ", " ETH", "eth ", " eth", "\tEth\n", "USDT ", " usdt", "\tUsDt\n", "usdt", "USDT", "US DT", "  ", " ", "\n",
+			"c eth", "ceth ", " ceth", "Face ", " Face", "a\u00a0", "\u2003x", "x\r\n", "\x00", "a\x00b", "<&>", "\"q\"", "\\"}[r.Intn(27)]
 	case 3:
 		return []string{"É", "İSTANBUL", "ǅ", "ÀB", "cÉ", "\xff\xfe", "a\x80B", "Σ", "ΑΣ"}[r.Intn(9)]
 	default:
@@ -299,6 +304,7 @@ func runEth(c ethCase, out *Out, viaLog bool, bankABI abi.ABI) {
 		op = "log2claim"
 	}
 	var fields []string
+	var relayed *ethbridge.EthBridgeClaim
 	ans := protect(func() string {
 		ev := c.event()
 		if viaLog {
@@ -322,6 +328,7 @@ func runEth(c ethCase, out *Out, viaLog bool, bankABI abi.ABI) {
 		if err != nil {
 			return "err"
 		}
+		relayed = &claim
 		fields = claimFields(claim)
 		return claimAnswer(fields)
 	})
@@ -338,6 +345,119 @@ func runEth(c ethCase, out *Out, viaLog bool, bankABI abi.ABI) {
 	out.Emit(fmt.Sprintf("chk c16.ethverdict tag=parser.%s.verdict %s %d", op, c.args(), cls), "true", "chk.ethverdict", false)
 	if cls == 0 {
 		out.Emit(fmt.Sprintf("chk c16.claim tag=parser.%s.fields %s %s", op, c.args(), strings.Join(fields, " ")), "true", "chk.claim", false)
+	}
+	if cls == 0 && !viaLog && relayed != nil && utf8.ValidString(relayed.Symbol) {
+		// the content the chain derives from the relayed claim, read back the way the chain reads it
+		// (JSON replaces invalid UTF-8, so the codec is only a bijection on valid texts)
+		kf, _ := contentOf(relayed)
+		cans := "err"
+		if kf != nil {
+			cans = fmt.Sprintf("ok recv=%s amount=%s sym=%s token=%s type=%s", kf[0], kf[1], kf[2], kf[3], kf[4])
+		}
+		out.Emit("content "+c.args(), cans, "content."+strings.SplitN(cans, " ", 2)[0], kf != nil)
+		if kf != nil {
+			out.Emit(fmt.Sprintf("chk c16.content tag=content.fields %s %s", c.args(), strings.Join(kf, " ")), "true", "chk.content", false)
+		}
+	}
+}
+
+// contentOf: CreateOracleClaimFromEthClaim (what the validators agree on) and the claim the chain reads back from
+// that text with CreateEthClaimFromOracleString — fields recv amount sym token type — plus the content text.
+func contentOf(claim *ethbridge.EthBridgeClaim) (fields []string, text string) {
+	defer func() {
+		if r := recover(); r != nil {
+			fields = nil
+		}
+	}()
+	oc, err := ethbridge.CreateOracleClaimFromEthClaim(claim)
+	if err != nil {
+		return nil, ""
+	}
+	val, _ := sdk.ValAddressFromBech32(claim.ValidatorAddress)
+	back, err := ethbridge.CreateEthClaimFromOracleString(claim.EthereumChainId, ethbridge.NewEthereumAddress(claim.BridgeContractAddress),
+		claim.Nonce, ethbridge.NewEthereumAddress(claim.EthereumSender), val, oc.Content)
+	if err != nil {
+		return nil, oc.Content
+	}
+	recv := "ERR"
+	if a, err := sdk.AccAddressFromBech32(back.CosmosReceiver); err == nil {
+		recv = hx(a)
+	}
+	return []string{recv, back.Amount.String(), hxs(back.Symbol), strings.ToLower(back.TokenContractAddress), fmt.Sprint(int32(back.ClaimType))}, oc.Content
+}
+
+// runContentPair: two events that differ (mostly) in the symbol text only — padding, letter case, inner blanks —
+// and the content texts the chain derives from their relayed claims.
+func runContentPair(r *Rng, out *Out) {
+	t := symTables[r.Intn(len(symTables))]
+	a := genEthCase(r)
+	a.table = t
+	a.to = []byte(sdk.AccAddress(genBytes(r, 20)).String())
+	if a.value.BitLen() > 256 {
+		a.value = r.Amount(256)
+	}
+	if a.ty != 1 && a.ty != 2 {
+		a.ty = int32(1 + r.Intn(2))
+	}
+	base := []string{"usdt", "USDT", "eth", "ETH", "Face", "cusdc", "dai", "x"}[r.Intn(8)]
+	variant := func() string {
+		switch r.Intn(8) {
+		case 0:
+			return base + " "
+		case 1:
+			return " " + base
+		case 2:
+			return "\t" + base + "\n"
+		case 3:
+			return strings.ToUpper(base)
+		case 4:
+			return strings.ToLower(base)
+		case 5:
+			return base[:1] + " " + base[1:]
+		case 6:
+			return base + "  "
+		default:
+			return base
+		}
+	}
+	a.sym = variant()
+	b := a
+	b.chain, b.value, b.nonce = new(big.Int).Set(a.chain), new(big.Int).Set(a.value), new(big.Int).Set(a.nonce)
+	b.sym = variant()
+	switch r.Intn(6) {
+	case 0:
+		b.value = new(big.Int).Add(a.value, big.NewInt(1))
+	case 1:
+		b.token = genAddr(r)
+	case 2:
+		b.ty = 3 - a.ty
+	}
+	st, err := txs.VerifNewSymbolTranslator(t.json())
+	if err != nil {
+		panic(err)
+	}
+	texts := make([]string, 2)
+	for i, c := range []ethCase{a, b} {
+		okc := protect(func() string {
+			claim, err := txs.EthereumEventToEthBridgeClaim(sdk.ValAddress(genBytes(r, 20)), c.event(), st, nopLogger)
+			if err != nil {
+				return "err"
+			}
+			_, text := contentOf(&claim)
+			texts[i] = text
+			return "ok"
+		})
+		if okc != "ok" || texts[i] == "" {
+			out.Hist["contentpair.skipped"]++
+			return
+		}
+	}
+	out.Emit(fmt.Sprintf("chk c16.contentdistinct tag=content.distinct - %s 2 %s %s %s %s", t.line(), a.batchTokens(), b.batchTokens(), hxs(texts[0]), hxs(texts[1])),
+		"true", "chk.contentdistinct", false)
+	if texts[0] == texts[1] {
+		out.Hist["contentpair.same-text"]++
+	} else {
+		out.Hist["contentpair.different-text"]++
 	}
 }
 
@@ -716,10 +836,13 @@ func init() {
 				t := symTables[rng.Intn(len(symTables))]
 				runCosmos(1+rng.Intn(2), genAttrs(rng, t), t, out)
 			case 5:
-				if rng.Bool() {
+				switch rng.Intn(3) {
+				case 0:
 					runClaimID(rng, out)
-				} else {
+				case 1:
 					runAttrsToClaim(rng, out)
+				default:
+					runContentPair(rng, out)
 				}
 			case 6:
 				t := symTables[rng.Intn(len(symTables))]
